@@ -68,6 +68,26 @@ def prows_groups(tier, props=("C02", "C12", "C09", "C11")):
     return gs
 
 
+def prows_cut_groups(tier, props=("C02", "C12", "C11")):
+    """cut-point obligation of mzd_process_rows2..6 (harness k_prows_cut.c): the word the row loop splits into table indices is the
+    k-cell field of the row for every k in NT..64 (k symbolic; no table is touched, so the table size is no limit)"""
+    gs = []
+    q = tier == "quick"
+    # (NT, nc, kind, ccol, first row)
+    cases = [(4, 130, "owned", 3, 0), (4, 200, "view1", 40, 1), (2, 130, "owned", 64, 0), (3, 130, "view1", 50, 0), (5, 200, "owned", 70, 2), (6, 130, "view1", 1, 1)]
+    if not q:
+        cases += [(nt, 200, kind, c, 0) for nt in (2, 3, 4, 5, 6) for kind in ("owned", "view1") for c in (0, 17, 63, 100, 127)]
+    tus = [t + "|-DVP_CUT_READ" if t == "brilliantrussian" else t for t in TUS]
+    for nt, nc, kind, ccol, r0 in cases:
+        dd = dict(mat(3, nc, kind))
+        dd.update({"NT": nt, "CCOL": ccol, "ROW0": r0})
+        fn = "mzd_process_rows%d" % nt
+        tag = "cut.nt%d.kany.3x%d.c%d.%s.row%d" % (nt, nc, ccol, kind, r0)
+        gs.append(Group(gid="K.%s.%s" % (fn, tag), props=list(props), harness="k_prows_cut.c", function=fn, layer="K", defines=dd, tus=tus, assert_mode=True,
+                        unwind=68, bounded=True, bound_note="shape " + tag + "; k symbolic over NT..64, all cells symbolic", shape=tag, timeout=600, mem_gb=8, slots=1, config="host"))
+    return gs
+
+
 def c02(tier):
     P = ("C02", "C10", "C12")
     gs = [G("C02", "ECH_NAIVE", "mzd_echelonize_naive", 3, 5, P, extra={"FULL": 1}), G("C02", "ECH_NAIVE", "mzd_echelonize_naive", 3, 5, P, kind="view1", extra={"FULL": 0}),
@@ -77,6 +97,7 @@ def c02(tier):
         gs += [G("C02", "TOP_ECH", "mzd_top_echelonize_m4ri", 3, 4, P, extra={"KPAR": 2}, timeout=3000, mem=40, slots=6),
                G("C02", "ECH_M4RI", "mzd_echelonize_m4ri", 3, 4, P, extra={"FULL": 1, "KPAR": 2}, timeout=3000, mem=40, slots=6)]
     gs += prows_groups(tier)
+    gs += prows_cut_groups(tier)
     if tier == "thorough":
         gs += [G("C02", "ECH_M4RI", "mzd_echelonize_m4ri", 3, 5, P, extra={"FULL": 0, "KPAR": 1}, timeout=3600, slots=4),
                G("C02", "ECH_M4RI", "mzd_echelonize_m4ri", 3, 5, P, extra={"FULL": 1, "KPAR": 2}, timeout=3600, slots=4, config="scalar"),
